@@ -13,11 +13,11 @@ Definition counts_of_sx (x : sx) : list (string * nat) :=
 (* input: ("count" code-model) | ("java" files) *)
 Definition c18_model (x : sx) : sx :=
   if String.eqb (sx_str (sx_nth 0 x)) "count" then
-    sx_of_counts (build_call_map (model_of_sx (sx_nth 1 x)))
+    sx_of_counts (count_report (model_of_sx (sx_nth 1 x)))
   else
   let '(idents, deps) := run_passes (map file_of_sx (sx_list (sx_nth 1 x))) in
   let e := evaluate deps idents in
-  L [sx_of_counts (build_call_map deps);
+  L [sx_of_counts (count_report deps);
      L [sx_of_nat (es_classes e); sx_of_nat (es_methods e); sx_of_nat (es_static e); sx_of_nat (es_utils e);
         sx_of_strs (es_nullable e)];
      sx_of_counts (concept_analysis deps)].
